@@ -3,7 +3,7 @@ EXTENDS Session, Json, SequencesExt
 
 CONSTANTS MaxSteps, MaxRowsPerDb, EmitOn
 VARIABLES n, hist, last
-mcVars == <<dbs, cur, content, unsaved, res, n, hist, last>>
+mcVars == <<dbs, cur, content, unsaved, ticked, res, n, hist, last>>
 
 Exp == [k |-> res.k, show |-> SetToSortSeq(res.show, LAMBDA x, y : TRUE), cur |-> cur,
         dbs |-> [i \in 1..Len(SetToSortSeq(dbs, LAMBDA x, y : TRUE)) |->
@@ -15,18 +15,19 @@ St(a, nm, v) == [a |-> a, n |-> nm, v |-> v]
 MCInit == SessInit /\ n = 0 /\ hist = <<>> /\ last = <<"", "">>
 Small == \A d \in dbs : Len(content[d].rows) < MaxRowsPerDb
 MCNext == /\ n < MaxSteps /\ n' = n + 1
-          /\ \/ \E nm \in Names : CreateDb(nm) /\ H(St("createdb", nm, 0))
-             \/ \E nm \in Names : Use(nm) /\ H(St("use", nm, 0))
-             \/ Show /\ H(St("show", "", 0))
-             \/ CreateTable /\ H(St("createtable", "", 0))
-             \/ Tick /\ H(St("tick", "", 0))
-             \/ Restart /\ H(St("restart", "", 0))
-             \/ \E v \in Vals : Small /\ Insert(v) /\ H(St("insert", "", v))
-             \/ \E v \in Vals : Delete(v) /\ H(St("delete", "", v))
+          /\ \/ Tick /\ H(St("tick", "", 0))
+             \/ /\ ticked' = FALSE
+                /\ \/ \E nm \in Names : CreateDb(nm) /\ H(St("createdb", nm, 0))
+                   \/ \E nm \in Names : Use(nm) /\ H(St("use", nm, 0))
+                   \/ Show /\ H(St("show", "", 0))
+                   \/ CreateTable /\ H(St("createtable", "", 0))
+                   \/ Restart /\ H(St("restart", "", 0))
+                   \/ \E v \in Vals : Small /\ Insert(v) /\ H(St("insert", "", v))
+                   \/ \E v \in Vals : Delete(v) /\ H(St("delete", "", v))
 \* views of growing precision: more of the recent path in the fingerprint = more distinct paths generated
-View == <<dbs, cur, content, unsaved>>
-ViewLast == <<dbs, cur, content, unsaved, last[1]>>
-ViewLast2 == <<dbs, cur, content, unsaved, last>>
-ViewN == <<dbs, cur, content, unsaved, last[1], n>>
+View == <<dbs, cur, content, unsaved, ticked>>
+ViewLast == <<dbs, cur, content, unsaved, ticked, last[1]>>
+ViewLast2 == <<dbs, cur, content, unsaved, ticked, last>>
+ViewN == <<dbs, cur, content, unsaved, ticked, last[1], n>>
 Emit == EmitOn => PrintT(<<"SCN", ToJson([steps |-> hist'])>>)
 =============================================================================
